@@ -316,7 +316,10 @@ impl BDF {
             let mut h_signed = direction * h_try;
             let x_start = x;
             let mut x_new = x + h_signed;
-            if direction * (x_new - xend) > 0.0 {
+            // The last step is stretched by up to 1% (as in the explicit solvers): a step sequence that adds up to
+            // xend minus a rounding remainder then still lands on xend instead of leaving a step the stagnation
+            // guard rejects.
+            if direction * (x + 1.01 * h_signed - xend) > 0.0 {
                 let step_to_end = (xend - x).abs();
                 if step_to_end == 0.0 {
                     status = Status::Success;
